@@ -62,6 +62,16 @@ class Result:
 
 
 _SCN = None
+_KNOWN = None
+
+
+def _known_sigs():
+    """(oracle, sig) pairs listed in known_findings.json: hitting one of them does not cut the search short"""
+    global _KNOWN
+    if _KNOWN is None:
+        from .report import load_known
+        _KNOWN = set((k["oracle"], k["sig"]) for k in load_known().get("findings", []))
+    return _KNOWN
 
 
 def _replay(scn, hist):
@@ -224,8 +234,8 @@ def explore(scn, nproc=None, log=None, stop_on_violation=False, max_violations=2
             frontier = nxt
             depth += 1
             res.max_depth = depth
-            if res.violations:
-                # a violation is on record: finish at most two more levels (to collect sibling signatures), then stop
+            if [v for v in res.violations if (v["oracle"], v.get("sig")) not in _known_sigs()]:
+                # a new violation is on record: finish at most two more levels (to collect sibling signatures), then stop
                 first_viol_depth = getattr(res, "_first_viol_depth", None)
                 if first_viol_depth is None:
                     res._first_viol_depth = first_viol_depth = depth
